@@ -212,7 +212,8 @@ def gen_feature(rng, n, allow_cites=0, sites=False):
         parts = ((0, n, rng.choice([0, 1])),)
     cites = ()
     if allow_cites and rng.random() < 0.5:
-        cites = tuple("i{}".format(rng.randint(1, allow_cites)) for _ in range(rng.randint(1, 3)))
+        cites = tuple("i{}".format(allow_cites if rng.random() < 0.3 else rng.randint(1, allow_cites))
+                      for _ in range(rng.randint(1, 3)))
     return Feat(ftype, "u{}".format(rng.randrange(0, 50)), cites, parts)
 
 
@@ -384,3 +385,13 @@ def random_pattern(rng, max_items=6):
     if depth:
         items.append(")")
     return "".join(items)
+
+
+def source_lookalikes(n):
+    """three-part locations whose first listed part starts at 0 and whose last listed part ends at n (overlapping,
+    gapped, summing to n or not): everything a hasty test for "the whole-plasmid source feature" could mistake for it"""
+    for a in range(1, n + 1):
+        for b in range(0, n):
+            for c in range(b + 1, n + 1):
+                for d in range(0, n):
+                    yield ((0, a), (b, c), (d, n))
